@@ -62,3 +62,9 @@ CLAIMS["C12"] = dict(
     note="Trusted: constant direction arguments of GetAllRelations; SSA closures of VDelete/VGetConnections.",
     technique="static analysis: sibling agreement of constant direction sets + must-precede (wg.Add before go) over SSA",
 )
+CLAIMS["C13"] = dict(
+    ref="DESIGN.md §4 C13",
+    text="Decides the statically visible part of deadlock- and race-freedom over the whole module (may/must-hold lock dataflow on SSA, interprocedural summaries, VTA edges for callbacks and interface calls): every acquisition is released on every path and nothing is released unheld (LCK-1); TryLock results are honoured (LCK-2); the lock-order graph over lock classes has no inversion against the code's own hierarchy and no residual cycle, same-class nesting is ordered (LCK-3/3b, with explicit gate-lock obligations); no instance is re-acquired while held (LCK-4); table-listed guarded fields are accessed only under their guard, caller-must-hold helpers checked at every caller (LCK-5); event fan-out never blocks (LCK-6); metadata read-modify-write keeps read, journal and write-back under one per-node lock (GRD-rmw); sends to the log writer watch closedCh (ORD-6). Atomics/happens-before outside the guarded-field table, liveness and linearizability are NOT decided.",
+    note="Trusted: lock classes = (struct type, field path) with arrays/maps collapsed; instance identity only for receiver/parameter-rooted locks; guard table and rank table in checker/rules_lck.go (frozen from the README hierarchy and reading); a loop-acquired lock is not a must-hold (4 table exceptions, each with reason).",
+    technique="static analysis: interprocedural may/must lockset dataflow over SSA + VTA call graph, lock-order graph with SCC/rank/gate analysis",
+)
